@@ -30,6 +30,7 @@ class Eraser {
     this.prologue = null
     this.seqCount = 0
     this.guards = 0
+    this.guardRecs = []
     this.inline = new Map() // temporaries assigned inline in an assignment target: (t = obj).p = ...
   }
 
@@ -471,6 +472,10 @@ class Eraser {
     }
     for (const s of spine) { s.inChain = true; if (s.optional === undefined) s.optional = false }
     if (total > 1) rest = replaceMarkers(rest, t, () => this.bindingExpr(b))
+    // does the lowered chain hold an instrumented operation at all? (C05: an unlisted operation stays as written)
+    let hooked = false
+    ;(function w (n) { if (hooked || n === null || typeof n !== 'object') return; if (Array.isArray(n)) { n.forEach(w); return } if (n.$hook) { hooked = true; return } for (const k of Object.keys(n)) w(n[k]) })(rest)
+    this.guardRecs.push({ temp: t, hooked, text: summ(rest) })
     return Object.assign(rest, { $guard: { temp: t } })
   }
 }
@@ -610,7 +615,7 @@ function erase (astOut, prefix) {
     for (const k of Object.keys(n)) if (k !== 'span' && k[0] !== '$') scan(n[k], path)
   })(tree, '')
   if (leftovers.length) E.problem('instrumentation-survives-erasure', 'leftover', 'after erasure the program still mentions ' + Array.from(new Set(leftovers)).slice(0, 4).join(', '))
-  return { tree: norm(tree), problems: E.problems, hooks: E.hooks, lets: E.lets, prologue: E.prologue, guards: E.guards, tempPrefix: E.tp }
+  return { tree: norm(tree), problems: E.problems, hooks: E.hooks, lets: E.lets, prologue: E.prologue, guards: E.guards, guardRecs: E.guardRecs, tempPrefix: E.tp }
 }
 
 module.exports = { erase, norm, summ, isObj, isIdent, unparen, stripSpans, NS }
